@@ -183,6 +183,40 @@ Theorem C02_kc_binary64_error : forall p mu k xs M K, kc_new FOps p mu = Ok k ->
     (Rabs (FR av - AV) <= Ea)%R /\ (Rabs (FR up - UP) <= D)%R /\ (Rabs (FR lo - LO) <= D)%R.
 Proof. exact kc_float_error. Qed.
 
+(* ... and the bar paths (no hypothesis low <= high): TrueRange on bars within 3 u M of max(high - low, |high - prev close|, |low - prev close|),
+   ATR on bars within the same uniform bound as on scalars, the typical price within 8 u M of (close + high + low) / 3, and every
+   KeltnerChannel band on bars within Ea' + K Et + 24 (1+K) u M of the real band, Ea' = 17 (n+1) u (2M) + 8 u M; streams of ANY length *)
+From TA Require Import Proofs.XBands Proofs.XCe Proofs.FloatBars Proofs.FloatKcBar.
+Theorem C02_tr_bar_binary64_error : forall M, (1 <= M)%R -> (M <= bpow radix2 990)%R -> forall bars (t : @Tr PrimFloat.float), tr_ok M t -> Forall (okbar3 M) bars ->
+  let outs := tr_bar_outs FOps t bars in
+  let reals := trb_stream (option_map FR (tr_prev_close t)) (map rb bars) in
+  length outs = length bars /\ length reals = length bars /\
+  forall j, (j < length bars)%nat ->
+    finF (nth j outs 0%float) /\ (Rabs (FR (nth j outs 0%float)) <= 3 * M)%R /\ (Rabs (FR (nth j outs 0%float) - nth j reals 0) <= 3 * u * M)%R.
+Proof. exact ftr_bar_err_run. Qed.
+Theorem C02_atr_bar_binary64_uniform : forall p a bars M, atr_new FOps p = Ok a -> (p < 35184372088832)%N ->
+  (1 <= M)%R -> (3 * M <= bpow radix2 990)%R -> Forall (okbar3 M) bars ->
+  let outs := atr_bar_outs FOps a bars in
+  let reals := ema_stream (kreal p) (trb_stream None (map rb bars)) in
+  length outs = length bars /\
+  forall j, (j < length bars)%nat ->
+    finF (nth j outs 0%float) /\ (Rabs (FR (nth j outs 0%float) - nth j reals 0) <= atr_ebound p M)%R /\ (Rabs (nth j reals 0) <= 4 * M)%R.
+Proof. exact atr_bar_float_uniform. Qed.
+Theorem C02_typical_binary64_error : forall M b, (1 <= M)%R -> (4 * M <= bpow radix2 900)%R -> okbar3 M b ->
+  okin (2 * M) (typical FOps b) /\ (Rabs (FR (typical FOps b) - tpb (rb b)) <= 8 * u * M)%R.
+Proof. exact typical_err. Qed.
+Theorem C02_kc_bar_binary64_error : forall p mu k bars M K, kc_new FOps p mu = Ok k -> (p < 35184372088832)%N ->
+  finF mu -> (Rabs (FR mu) <= K)%R -> (1 <= M)%R -> (4 * (1 + K) * M <= bpow radix2 900)%R -> Forall (okbar3 M) bars ->
+  let Ea := (ebound p (2 * M) + 8 * u * M)%R in let Et := atr_ebound p M in
+  let D := (Ea + K * Et + 24 * (1 + K) * u * M)%R in
+  let outs := kc_bar_outs FOps k bars in
+  let reals := kc_bar_real (kreal p) (FR mu) (map rb bars) in
+  length outs = length bars /\
+  forall j, (j < length bars)%nat -> exists av up lo AV UP LO,
+    nth j outs [] = [av; up; lo] /\ nth j reals [] = [AV; UP; LO] /\ finF av /\ finF up /\ finF lo /\
+    (Rabs (FR av - AV) <= Ea)%R /\ (Rabs (FR up - UP) <= D)%R /\ (Rabs (FR lo - LO) <= D)%R.
+Proof. exact kc_bar_float_error. Qed.
+
 From Coq Require Import List Floats.
 From TA Require Import Generic FloatInst XQ Run2 Par.Hom Par.Var Par.Oracle.
 (* the T2 oracle (exact rational run, evaluated by the checks) is the image of the exact real run these
